@@ -47,6 +47,15 @@ CHECKS = {
     "C09": dict(engine="libfuzzer+dsched", technique="coverage-guided fuzzing with a reference model, a hang watchdog and a recording bucket allocator (inputs: all resize targets, allocators, bounds) plus property-based schedule exploration of resizes concurrent with operations (linearizability, shadow heap, termination oracles)",
                 text="E2: every requested size incl. 0, non powers of two, > max and ULONG_MAX must return and preserve contents, bucket count within [1,max], order arguments validated by a recording allocator. E1: explicit and lazy (chain-length, counter-driven, partitioned) resizes concurrent with updates/lookups/destroy. Exploration over inputs and schedules.",
                 ref="DESIGN.md §6 C09"),
+    "C10": dict(engine="dsched", technique="property-based testing: Hypothesis-generated concurrent wfcqueue/wfqueue programs (all dequeue/splice/iteration variants, locked and single-consumer schemes) + schedules + TSO delays on a controlled-concurrency engine; Wing-Gong linearizability check against a sequential FIFO reference model (two-step splice), WOULDBLOCK-only-while-in-flight rule, payload and shadow-heap oracles",
+                text="Complete call/return histories of the real cds_wfcq / cds_wfq code (including the final drain) are searched for a linearization against the FIFO specification with every documented result; change points land between an enqueuer's tail exchange and its link store. Exploration over schedules.",
+                ref="DESIGN.md §6 C10"),
+    "C11": dict(engine="dsched", technique="property-based testing: generated concurrent wfstack/lfstack/rculfstack programs (all pop/pop_all/iteration variants; lock, single-consumer and RCU schemes with node recycling after a grace period) + schedules + TSO delays; Wing-Gong linearizability check against a sequential LIFO reference model, WOULDBLOCK rule, payload and shadow-heap oracles",
+                text="Histories of the real stack code under the three documented synchronisation schemes are checked for linearizability against the LIFO specification (push/pop results, STATE_LAST, empty(), pop_all contents); recycled nodes exercise ABA. Exploration over schedules.",
+                ref="DESIGN.md §6 C11"),
+    "C12": dict(engine="dsched", technique="property-based testing: generated concurrent cds_lfq enqueue/dequeue programs inside read-side sections of every flavor with node recycling through grace periods + schedules + TSO delays; Wing-Gong linearizability check against a sequential FIFO reference model incl. destroy, live-user-node and shadow-heap oracles",
+                text="Histories of the real rculfqueue code (three CAS sites, dummy-node swap, the flavor's call_rcu) are checked for linearizability against the FIFO specification; returned pointers must be live user nodes, dummies are reclaimed only after a grace period, destroy succeeds iff empty. Exploration over schedules.",
+                ref="DESIGN.md §6 C12"),
 }
 NOT_YET = "check not built yet in this session (planned: see DESIGN.md §6)"
 
